@@ -1200,7 +1200,14 @@ impl Injection for Base<DataType, Optional> {
             (value::Value::Optional(arg), DataType::Optional(domain)) => {
                 From(domain).into(self.co_domain())?.value(arg)
             }
-            (arg, _) => self.checked_value(arg, value::Optional::some(arg.clone())),
+            (arg, domain) => self.checked_value(
+                arg,
+                value::Optional::some(
+                    From(domain)
+                        .into(self.co_domain().data_type().clone())?
+                        .value(arg)?,
+                ),
+            ),
         }
     }
 }
